@@ -180,6 +180,44 @@ func buildCollection(impl string, ts *gen.TypeSpec, items []rangeItem) jsonapi.C
 
 	switch impl {
 	case "softcol":
+		if a, ok := soft.Attr(c09Renamed); ok && c09Renamed != "" {
+			// (see c09Renamed) the type has zz-old instead of the attribute
+			// while the members are stored
+			old := soft
+			old.Attrs = append([]jsonapi.Attr{}, soft.Attrs...)
+
+			for i := range old.Attrs {
+				if old.Attrs[i].Name == c09Renamed {
+					old.Attrs[i].Name = "zz-old"
+				}
+			}
+
+			sort.Slice(old.Attrs, func(x, y int) bool { return old.Attrs[x].Name < old.Attrs[y].Name })
+
+			typ := gen.SoftTypeOf(&old)
+			col := &jsonapi.SoftCollection{}
+			col.SetType(&typ)
+
+			for _, it := range items {
+				vals := map[string]any{}
+				for k, v := range it.vals {
+					if k != c09Renamed {
+						vals[k] = v
+					}
+				}
+
+				col.Add(mk(&old, rangeItem{id: it.id, vals: vals}))
+			}
+
+			col.Type.RemoveAttr("zz-old")
+
+			if err := col.AddAttr(a); err != nil {
+				panic(fmt.Sprintf("harness: AddAttr(%+v): %v", a, err))
+			}
+
+			return col
+		}
+
 		typ := gen.SoftTypeOf(&soft)
 		col := &jsonapi.SoftCollection{}
 		col.SetType(&typ)
@@ -229,6 +267,10 @@ func buildCollection(impl string, ts *gen.TypeSpec, items []rangeItem) jsonapi.C
 	}
 }
 
+// c09Renamed names the attribute that replaced another one in the type of the
+// soft collections of the current case ("" if none); set by TestC09Range.
+var c09Renamed string
+
 var rangeImpls = []string{"softcol", "resources-soft", "resources-wrapped", "wrapcol"}
 
 func TestC09Range(t *testing.T) {
@@ -257,11 +299,19 @@ func TestC09Range(t *testing.T) {
 			n = rapid.IntRange(20, 40).Draw(t, "n-many")
 		}
 
+		// ... and, rarely, of a size at which work may be split up.
+		idPattern := `[a-f]{1,2}`
+		huge := false
+
+		if many && rapid.IntRange(0, 7).Draw(t, "huge") == 0 && rapid.IntRange(0, 2).Draw(t, "huge-really") == 1 {
+			huge, n, idPattern = true, rapid.IntRange(129, 230).Draw(t, "n-huge"), `[a-f]{2,4}`
+		}
+
 		items := []rangeItem{}
 		seen := map[string]bool{}
 
 		for i := 0; i < n; i++ {
-			id := rapid.StringMatching(`[a-f]{1,2}`).Draw(t, "id")
+			id := rapid.StringMatching(idPattern).Draw(t, "id")
 			if rapid.IntRange(0, 11).Draw(t, "emptyid") == 0 {
 				id = "" // a member whose ID is missing (still unique)
 			}
@@ -290,10 +340,25 @@ func TestC09Range(t *testing.T) {
 			items = append(items, it)
 		}
 
+		// A soft collection whose type once had another attribute where one
+		// of its attributes is now (taken out, this one put in, after the
+		// members were stored): every member reads the zero value there.
+		c09Renamed = ""
+
+		for _, a := range ts.Attrs {
+			if !a.Nullable && c09Renamed == "" && rapid.IntRange(0, 7).Draw(t, "renamed-"+a.Name) == 0 {
+				c09Renamed = a.Name
+
+				for i := range items {
+					items[i].vals[a.Name] = gen.ZeroValue(a)
+				}
+			}
+		}
+
 		// ID list: empty, or a duplicate-free subset plus absent IDs.
 		ids := []string{}
 
-		if rapid.IntRange(0, 2).Draw(t, "useIDs") == 0 || (many && rapid.Bool().Draw(t, "useIDs-many")) {
+		if !huge && (rapid.IntRange(0, 2).Draw(t, "useIDs") == 0 || (many && rapid.Bool().Draw(t, "useIDs-many"))) || huge && rapid.IntRange(0, 3).Draw(t, "useIDs-huge") == 0 {
 			for _, it := range items {
 				if rapid.IntRange(0, 3).Draw(t, "pick") > 0 {
 					ids = append(ids, it.id)
@@ -312,7 +377,7 @@ func TestC09Range(t *testing.T) {
 		// Filter: nil or a tree relative to a member's values.
 		var tree *gen.FNode
 
-		if len(items) > 0 && rapid.IntRange(0, 2).Draw(t, "useFilter") == 0 {
+		if len(items) > 0 && (huge || rapid.IntRange(0, 2).Draw(t, "useFilter") == 0) {
 			ref := items[rapid.IntRange(0, len(items)-1).Draw(t, "ref")]
 			vals := map[string]any{"id": ref.id}
 
@@ -341,6 +406,12 @@ func TestC09Range(t *testing.T) {
 		}
 
 		size := rapid.SampledFrom([]uint{0, 1, 2, 3, uint(len(items)), uint(len(items) + 1), 1 << 31, 1<<63 - 1, 1 << 63, math.MaxUint64}).Draw(t, "size")
+
+		// (paging through hundreds of members three at a time costs more
+		// than it shows: pages of 50 there)
+		if len(items) > 128 && size >= 1 && size <= 3 {
+			size = 50
+		}
 
 		var num uint
 
@@ -538,7 +609,7 @@ func TestC09Range(t *testing.T) {
 			}
 
 			// Partition: consecutive pages cover the matches exactly once, in order.
-			if size > 0 && size <= 4 {
+			if size > 0 && (size <= 4 || len(items) > 128 && size == 50) {
 				all := []string{}
 				pages := uint((len(matches) + int(size) - 1) / int(size))
 
@@ -665,6 +736,14 @@ func TestC09Range(t *testing.T) {
 		}
 
 		labels := []string{"impl:" + impl, fmt.Sprintf("matches:%d", min(len(matches), 5))}
+		if len(items) > 128 {
+			labels = append(labels, "members:129+")
+		}
+
+		if c09Renamed != "" && impl == "softcol" {
+			labels = append(labels, "softcol:renamed-attribute")
+		}
+
 		for _, rule := range rules {
 			if a, ok := ts.Attr(strings.TrimPrefix(rule, "-")); ok {
 				labels = append(labels, "rule:"+gen.KindName(a.Type, a.Nullable))
